@@ -196,10 +196,13 @@ pub fn exec(actor: &mut Actor, rc: &RunCtx, step: &Value) {
     call.insert("ev".into(), json!("call"));
     call.insert("t".into(), json!(t));
     call.insert("op".into(), json!(op));
-    for k in ["h", "g", "c", "l", "ls"] {
+    for k in ["h", "g", "c", "l", "ls", "v"] {
         if !step[k].is_null() {
             call.insert(k.into(), json!(sname(geti(k))));
         }
+    }
+    if op == "torec" && geti("src") != 0 {
+        call.insert("src".into(), json!(sname(geti("src"))));
     }
     if let Some(ps) = step["ps"].as_array() {
         call.insert(
@@ -527,6 +530,23 @@ fn do_op(
             let ls = rc.lsets.lock().unwrap().get(&geti("ls")).cloned();
             if let (Some(s), Some(ls)) = (get_span(rc, geti("h")), ls) {
                 s.push_child_spans(ls);
+            }
+        }
+        "torec" => {
+            // LocalSpans::to_span_records under the context of span src, or under a made-up one
+            out.insert("ctx".into(), json!({"some": false}));
+            out.insert("recs".into(), json!([]));
+            let src = geti("src");
+            let ctx = if src == 0 {
+                Some(SpanContext::new(fastrace::collector::TraceId(rc.rpar(geti("v")) as u128 | 1 << 100), fastrace::collector::SpanId(rc.rpar(geti("v")) | 1 << 60)))
+            } else {
+                get_span(rc, src).and_then(|s| SpanContext::from_span(&s))
+            };
+            out.insert("ctx".into(), ctx_json(ctx));
+            let ls = rc.lsets.lock().unwrap().get(&geti("ls")).cloned();
+            if let (Some(c), Some(ls)) = (ctx, ls) {
+                let recs = ls.to_span_records(c);
+                out.insert("recs".into(), Value::Array(recs.iter().map(crate::rt::record_json).collect()));
             }
         }
         "cancel" => {
